@@ -305,9 +305,11 @@ theorem createType_ok (K : Consts) (ts ts' : TypeSystem) (n s : String) (d : Opt
       · rename_i sup hsup
         split at h
         · cases h
-        · rename_i new1 hnew
-          cases h
-          exact ⟨sup, new1, hsup, hnew, rfl⟩
+        · split at h
+          · cases h
+          · rename_i new1 hnew
+            cases h
+            exact ⟨sup, new1, hsup, hnew, rfl⟩
 
 /-- register `n` among the children of the type named `sup` -/
 def upd (sup n : String) (t : TypeRec) : TypeRec :=
